@@ -128,7 +128,16 @@ def run_scenario(sc, timeout=1.0):
             event.assoc.abort()
 
     hs = [(evt.EVT_ACSE_RECV, on_acse_recv), (evt.EVT_C_ECHO, on_echo), (evt.EVT_C_STORE, on_store), (evt.EVT_C_FIND, on_find), (evt.EVT_C_GET, on_get), (evt.EVT_REQUESTED, on_requested)]
-    rq_hs = [(evt.EVT_C_STORE, on_store)]
+    def on_req_acse_sent(event):
+        # abort_back: the requestor's A-ABORT is being sent (its abort() has not finished): the acceptor's application aborts now
+        if sc.get("acc") == "abort_back" and type(event.primitive).__name__ == "A_ABORT" and acc_assocs:
+            try:
+                acc_assocs[-1].abort()
+            except Exception:  # noqa: BLE001
+                pass
+            time.sleep(0.15)
+
+    rq_hs = [(evt.EVT_C_STORE, on_store), (evt.EVT_ACSE_SENT, on_req_acse_sent)]
     raisers = []
     if sc.get("raises") is not None:
         # notification handlers bound on both sides for every notification event; they raise where the scenario says
